@@ -182,8 +182,11 @@ def c06_scenarios(ctx):
     # buffer and kernel buffers fill, the writer is blocked), then resumes and reads to the end.  Never closes.
     for (cb, iob, fl) in sizes:
         sid += 1
+        # the relay's socket send buffer autotunes up to tcp_wmem[2] (4 MB) while the endpoint reads: the lines handed
+        # during the stall must exceed that plus io buffer plus conn.In (1000-byte lines; 3/4 of `lines` is the fill budget)
+        ll = 1000
         scns.append(dict(id=sid, kind="stall", route="all", connbuf=cb, iobuf=iob, flush_ms=fl,
-                         lines=max(lines if iob > 8 else lines // 2, 8 * (cb + iob // 200 + 3000)), linelen=200,
+                         lines=(4 * (7_000_000 // ll + iob // ll + cb + 2100)) // 3, linelen=ll,
                          rcvbuf=rng.choice([2048, 8192]), close_after=0, stall_ms=max(400, 12 * fl), switches=[]))
     # one bad endpoint must not affect the others of the same route
     for (cb, iob, fl) in sizes[:2]:
@@ -249,10 +252,12 @@ def c07_scenarios(ctx):
     # held with a line in its hand, In full / unbuffered).  The line comes from dest.In or from the spool.
     for src in ("in", "unspool"):
         for cb in (0, 1, 2):
+            # nothing is delivered before the gate: a line that is delivered and later also dropped-and-counted as a redo
+            # duplicate would loosen the bound by one and could hide the one line the gate is about
             if src == "in":
-                steps = ["up", S(20), "settle", "dsarm in", "dshold 50", S(cb + 1), "dswait", S(5), "up", S(5)]
+                steps = ["up", "dsarm in", "dshold 50", S(cb + 1), "dswait", S(5), "up", S(5)]
             else:
-                steps = ["up", S(20), "settle", "down", S(cb + (40 if cb == 0 else 8)), "backlog %d" % (cb + 3),
+                steps = ["up", "down", S(cb + (40 if cb == 0 else 8)), "backlog %d" % (cb + 3),
                          "dsarm unspool", "up", "dswait", S(5), "up", S(5)]
             s = dict(base, id=len(scns) + 1, name="deadsend-%s-cb%d" % (src, cb), steps=steps, connbuf=cb, unspool_us=200)
             scns.append(s)
